@@ -19,7 +19,7 @@ import (
 )
 
 // ChainUniverse lists every chain id the drivers use (ascending byte order).
-var ChainUniverse = []string{"0001", "0002", "0003", "0021"}
+var ChainUniverse = []string{"0001", "0002", "0003", "0021", "00a1"}
 
 // nodeCfg describes one world: the small-number economy of the nodes module.
 type nodeCfg struct {
